@@ -65,16 +65,16 @@ type FuncReport struct {
 }
 
 type Verifier struct {
-	Prog    *Program
-	CS      *ContractSet
-	Prop    string
-	Tier    string
-	Known   []*KnownFinding
-	Obls    []*Obligation
-	Regions []*Obligation // known-finding region re-checks
-	Reports []*FuncReport
-	Errors  []string // machinery errors
-	UsedEnv map[string]bool
+	Prog          *Program
+	CS            *ContractSet
+	Prop          string
+	Tier          string
+	Known         []*KnownFinding
+	Obls          []*Obligation
+	Regions       []*Obligation // known-finding region re-checks
+	Reports       []*FuncReport
+	Errors        []string // machinery errors
+	UsedEnv       map[string]bool
 	UsedSummaries map[string]bool
 	Verified      map[string]bool
 	AllClauses    map[string]bool // functions verified with every clause (summary callees)
